@@ -255,3 +255,27 @@ Theorem c04_code_tag_parsers_visit_model_walk : forall buf,
 Proof. exact code_tag_parsers_visit_model_walk. Qed.
 Print Assumptions c04_code_tag_parsers_visit_model_walk.
 
+(* ---- the SSID element handler AS TRANSLATED (Gen/Sites.v): at most 32 octets copied, the hidden indication exactly when the element is empty or every comparison with a zero
+   octet answered equal (ONE unknown for all the memcmp answers of a run: see DESIGN 4a) ---- *)
+From Coq Require Import String.
+From LW Require Import Base.Bytes Base.CExpr Gen.Sites Spec.CodeSpec Proofs.CodeSmall.
+Local Open Scope string_scope.
+Local Open Scope list_scope.
+Local Open Scope Z_scope.
+
+(* the SSID handler on every element length *)
+Theorem c04_code_handle_ssid_tag : forall rho tgt tt td len m,
+  0 <= len < 2 ^ 31 -> 0 <= td -> td + 32 < 2 ^ 63 -> 0 <= tgt -> tgt + 53 < 2 ^ 63 -> - 2 ^ 31 <= tt < 2 ^ 31 ->
+  let rho0 := upd (upd (upd (upd rho "target" tgt) "target_type" tt) "tag_data" td) "tag_len" len in
+  let L := Z.min len 32 in
+  let r := wrap s32 (rho "ret:memcmp") in
+  let s := wrap u64 (rho "str:\x00") in
+  let compares := if r =? 0 then L else Z.min L 1 in
+  let hidden := (len =? 0) || (r =? 0) in
+  exists rho',
+    exec 60 m rho0 [] body_libwifi_handle_ssid_tag =
+      Fell rho' (map (ssid_cmp s td) (zrange 0 (Z.to_nat compares)) ++ ssid_store tt tgt td L) /\
+    (tt = 0 -> rho' "bss->hidden" = b2z hidden).
+Proof. exact code_handle_ssid_tag. Qed.
+Print Assumptions c04_code_handle_ssid_tag.
+
